@@ -87,6 +87,12 @@ ED2(t) == [t EXCEPT !.grid = NewGrid(t.rows, t.cols, Blank(t.pen.bg))]
 
 Scramble(t) == [t EXCEPT !.grid = NewGrid(t.rows, t.cols, Unknown)]
 
+(* Something other than the application wrote to the terminal: nothing is   *)
+(* known of the cells, and the cursor is wherever, however and in whatever  *)
+(* shape that output left it (vis, shape, r, c are logged).                 *)
+Foreign(t, e) == [Scramble(t) EXCEPT !.vis = e.vis, !.shape = e.shape, !.pw = FALSE,
+                                     !.r = Clamp(e.r, 1, t.rows), !.c = Clamp(e.c, 1, t.cols)]
+
 Resize(t, rs, cs) == [t EXCEPT !.rows = rs, !.cols = cs, !.grid = NewGrid(rs, cs, Unknown),
                                !.r = Clamp(t.r, 1, rs), !.c = Clamp(t.c, 1, cs), !.pw = FALSE]
 
@@ -111,6 +117,7 @@ Step(t, e) ==
     [] e.ev \in {"keypad", "kpush", "kpop", "pointer", "appid", "query", "side", "ready"} -> t   \* no display effect (see specs/life)
     [] e.ev = "gfx"    -> [t EXCEPT !.unk = @ + 1]          \* graphics: display effect not modelled here (C20)
     [] e.ev = "scramble" -> Scramble(t)
+    [] e.ev = "foreign" -> Foreign(t, e)
     [] e.ev = "resize" -> Resize(t, e.rows, e.cols)
     [] OTHER           -> [t EXCEPT !.unk = @ + 1]
 
@@ -144,7 +151,40 @@ LayRow(arow, srow, n, x, acc) ==
                    conts == [i \in 1..(w2 - 1) |-> Cont]
                IN LayRow(arow, srow, n, x + w2, Append(acc, G(a[1], w, APen(a), a[8])) \o conts)
 
-Intended(app, grid, rs, cs) == [y \in 1..rs |-> LayRow(app[y], grid[y], cs, 1, <<>>)]
+(* The same with the order of the writes taken into account.  The tuple     *)
+(* carries two more facts, <<..., hd, st>>: every write (SetCell; Fill and  *)
+(* Print are sequences of them) covers the columns from hd on that its cell *)
+(* is wide (one column for an empty or zero-width cell), and leaves its     *)
+(* cell, hd and its number st (growing with every write; 0 = never written) *)
+(* in each of them.  What the application last set in a column is then the  *)
+(* cell of the last write that covered it:                                  *)
+(*  - a write that still has all its columns is shown as its cell: the      *)
+(*    glyph in the first column, the rest of a wide glyph after it;         *)
+(*  - a write that lost a column to a later one cannot be shown in the      *)
+(*    columns it has left (a terminal shows a wide glyph in all its columns *)
+(*    or not at all) and nothing says what else they show: "b", any narrow  *)
+(*    cell that the terminal was told to show there, no part of any wide    *)
+(*    glyph and nothing left to the terminal (see CellOK).                  *)
+(* An empty cell is a cell like any other ("rendered as an empty space"):   *)
+(* written over a column of a wide glyph it takes that column.              *)
+Lost == [k |-> "b"]
+Cover(a, n) == LET w == AW(a) IN Min(IF w < 1 THEN 1 ELSE w, n - a[10] + 1)
+WholeAt(arow, n, x) ==
+  LET a == arow[x] IN
+  /\ a[10] \in 1..x
+  /\ \A y \in a[10]..(a[10] + Cover(a, n) - 1) : arow[y][10] = a[10] /\ arow[y][11] = a[11]
+WantAt(arow, srow, n, x) ==
+  LET a == arow[x] IN
+  IF ~WholeAt(arow, n, x) THEN Lost
+  ELSE IF x # a[10] THEN Cont
+  ELSE IF a[9] = 0 /\ a[2] = 0 THEN G(Space, 1, APen(a), a[8])
+  ELSE G(a[1], WidthAt(a, srow[x]), APen(a), a[8])
+
+Ordered(arow) == Len(arow[1]) >= 11
+
+Intended(app, grid, rs, cs) ==
+  [y \in 1..rs |-> IF Ordered(app[y]) THEN [x \in 1..cs |-> WantAt(app[y], grid[y], cs, x)]
+                   ELSE LayRow(app[y], grid[y], cs, 1, <<>>)]
 
 (* Capability-dependent fallbacks (C07): without RGB a direct colour may be *)
 (* shown as any nearest palette entry; without styled underlines the style  *)
@@ -156,6 +196,7 @@ ColourOK(shown, want, rgbcap) ==
   ELSE shown = want
 
 CellOK(shown, want, rgbcap, sucap) ==
+  IF want.k = "b" THEN shown.k = "g" /\ shown.w = 1 ELSE
   /\ shown.k = want.k
   /\ shown.k = "g" =>
        /\ shown.g = want.g /\ shown.w = want.w /\ shown.ln = want.ln
@@ -175,6 +216,13 @@ ScreenOK(t, app, rgbcap, sucap) ==
 CursorOK(t, cur) == IF cur[1] = 0 THEN ~t.vis
                     ELSE t.vis /\ t.r = cur[2] /\ t.c = cur[3] /\ ~t.pw /\ t.shape = cur[4]
 
+(* Which part of the cursor request is not met, for the rejection signature. *)
+CursorWhy(t, cur) ==
+  IF cur[1] = 0 THEN (IF t.vis THEN "shown-though-hidden" ELSE "")
+  ELSE IF ~t.vis THEN "hidden-though-shown"
+  ELSE IF t.r # cur[2] \/ t.c # cur[3] \/ t.pw THEN "position"
+  ELSE IF t.shape # cur[4] THEN "shape" ELSE ""
+
 FlushClean(t) == t.pen = DefaultPen /\ t.link = 0 /\ ~t.sync
 
 FrameOK(t, e) == /\ FlushClean(t)
@@ -183,7 +231,8 @@ FrameOK(t, e) == /\ FlushClean(t)
 
 (* Names of the clauses of CellOK that fail, for the rejection signature. *)
 BadFields(shown, want, rgbcap, sucap) ==
-  IF shown.k # want.k THEN {"kind:" \o shown.k \o "/" \o want.k}
+  IF want.k = "b" THEN {"glyph-that-lost-a-column"}
+  ELSE IF shown.k # want.k THEN {"kind:" \o shown.k \o "/" \o want.k}
   ELSE IF shown.k # "g" THEN {}
   ELSE (IF shown.g # want.g THEN {"grapheme"} ELSE {})
        \cup (IF shown.w # want.w THEN {"width"} ELSE {})
